@@ -35,3 +35,24 @@ Proof.
            (grow_ok_proved key keq hash he ht Hsym) ops); auto.
   apply R_init.
 Qed.
+
+(** present_indices (map.rs l.726-733, the first step of MapKeys::reverse / rotate / take / drop)
+    after every such history: the table positions of the present keys, in row order *)
+Theorem present_indices_run :
+  forall (key val : Type) (keq : key -> key -> bool) (nanlike : key -> bool) (hash : key -> N) (he ht : N),
+    (forall k, keq k k = true) ->
+    (forall a b, keq a b = keq b a) ->
+    (forall a b c, keq a b = true -> keq b c = true -> keq a c = true) ->
+    (forall a b, keq a b = true -> hash a = hash b) ->
+    forall ops : list (op key val), forallb (proved_op key val) ops = true ->
+      let v := fst (run key val keq nanlike true hash he ht (empty_map key val) ops) in
+      let a := fst (srun key val keq [] ops) in
+      length (present_indices key (fst v)) = length a /\
+      forall i k x, nth_error a i = Some (k, x) ->
+        exists p, nth_error (present_indices key (fst v)) i = Some p /\
+          cellat key (fst v) p = Key k /\ nth p (idx (fst v)) 0 = i.
+Proof.
+  intros key val keq nanlike hash he ht Hrefl Hsym Htrans Hhash ops Hall v a.
+  apply (present_indices_R key val keq hash v a).
+  apply (map_inv_run key val keq nanlike hash he ht Hrefl Hsym Htrans Hhash ops Hall).
+Qed.
